@@ -130,8 +130,13 @@ pub fn record_one(prop: &str, seed: u64, i: usize) -> Vec<String> {
         return lines;
     }
     let b: Vec<serde_json::Value> = proj.items.iter().map(|x| json!({"k": x.kind, "n": x.name})).collect();
+    // primitive tokens of the whole body, the prelude `var x` at position 0 included (C06)
+    let mut t: Vec<serde_json::Value> = vec![json!({"k": "V", "p": 0})];
+    for (k, _n, p) in flat::expand(&proj.items) {
+        t.push(json!({"k": k, "p": p}));
+    }
     lines.push(
-        json!({"ev": "input", "case": i, "b": b, "off": r.off,
+        json!({"ev": "input", "case": i, "b": b, "t": t, "off": r.off,
                "consts": proj.consts.iter().map(|x| json!({"n": x.0, "line": x.1})).collect::<Vec<_>>(),
                "params": proj.params.iter().map(|x| json!({"n": x.0, "line": x.1})).collect::<Vec<_>>()})
         .to_string(),
@@ -172,7 +177,7 @@ fn tree_stmt(rng: &mut Rng, depth: usize, budget: &mut usize, out: &mut Vec<Item
         0 => out.push(Item::new("S", "")),
         1 => out.push(Item::new("G", "z")),
         2 => out.push(Item::new("LP", "")),
-        3 => out.push(Item::new("L", NAMES[rng.below(4)])),
+        3 => out.push(Item::new("L", &format!("q{}", out.len()))),
         4 => {
             out.push(Item::new("O", ""));
             let n = rng.below(4);
